@@ -112,6 +112,12 @@ def directed() -> List[Dict[str, Any]]:
                     D.append({"budget": 3, "nv": nv, "transpile": tr, "events": [
                         {"a": "new", "h": 1}, {"a": "seq", "role": role, "n": n, "form": form, "with": 1}, {"a": "flush"},
                         {"a": "gate", "h": 1}, {"a": "measD", "h": 1}, {"a": "flush"}]})
+    # a self-contained subroutine (keep one pair, use it, measure it) compiled once and run twice
+    for nv, tr in ((False, False), (True, False)):
+        for role in ("create", "recv"):
+            D.append({"budget": 3, "nv": nv, "transpile": tr, "events": [
+                {"a": "keep", "role": role, "hs": [1]}, {"a": "gate", "h": 1}, {"a": "measD", "h": 1}, {"a": "recommit", "role": role, "n": 1},
+                {"a": "new", "h": 2}, {"a": "measD", "h": 2}, {"a": "flush"}]})
     # a context whose body is refused part-way (the application catches the error and carries on); a qubit created just
     # before, not yet flushed
     for role in ("create", "recv"):
@@ -227,9 +233,20 @@ def _run(item):
                         q.measure()
                         if by is not None:
                             by.Z()
-            elif a == "flush":
+            elif a in ("flush", "recommit"):
                 try:
-                    conn.flush()
+                    if a == "recommit":
+                        o["a"] = "flush"
+                        # the pending operations are compiled once and the compiled subroutine is run twice (the documented
+                        # way to repeat a subroutine); observed like a flush after the second run
+                        sub_ = conn.compile()
+                        sub_.instantiate(conn.app_id)
+                        conn.commit_subroutine(sub_)
+                        if e.get("role") == "recv":
+                            conn.link.remote.append(dict(remote=1, purpose=0, type="K", n=e.get("n", 1)))
+                        conn.commit_subroutine(sub_)
+                    else:
+                        conn.flush()
                 except (rig.ControllerFault, rig.Stuck) as ex:
                     o["fault"] = True
                     o["exc"] = str(ex)[:200]
